@@ -310,7 +310,7 @@ func (c *Collection) WriteUpdateWithXattrs(
 				if len(updatedDoc.XattrsToDelete) > 0 {
 					return 0, sgbucket.ErrDeleteXattrOnTombstone
 				}
-				casOut, err = c.WriteResurrectionWithXattrs(ctx, key, exp, updatedDoc.Doc, updatedDoc.Xattrs, opts)
+				casOut, err = c.writeResurrection(key, exp, updatedDoc.Doc, updatedDoc.Xattrs, opts, previous.Cas)
 			} else {
 				// Update body and/or xattr:
 				casOut, err = c.WriteWithXattrs(ctx, key, exp, cas, updatedDoc.Doc, updatedDoc.Xattrs, updatedDoc.XattrsToDelete, opts)
@@ -388,6 +388,12 @@ func (c *Collection) WriteTombstoneWithXattrs(
 
 // WriteResurrectionWithXattrs creates an alive document with a given tombstone and xattrs.
 func (c *Collection) WriteResurrectionWithXattrs(ctx context.Context, k string, exp uint32, value []byte, xattrsValues map[string][]byte, opts *sgbucket.MutateInOptions) (casOut uint64, err error) {
+	return c.writeResurrection(k, exp, value, xattrsValues, opts, 0)
+}
+
+// writeResurrection implements WriteResurrectionWithXattrs. If tombstoneCas is nonzero, the tombstone being
+// resurrected must still have that CAS (used by WriteUpdateWithXattrs, whose callback was shown that version.)
+func (c *Collection) writeResurrection(k string, exp uint32, value []byte, xattrsValues map[string][]byte, opts *sgbucket.MutateInOptions, tombstoneCas CAS) (casOut uint64, err error) {
 	if value == nil {
 		return 0, sgbucket.ErrNeedBody
 	}
@@ -403,7 +409,7 @@ func (c *Collection) WriteResurrectionWithXattrs(ctx context.Context, k string, 
 		}
 		xattrs[xattrKey] = payload{marshaled: xv}
 	}
-	return c.writeWithXattrs(k, vp, xattrs, nil, expP, writeXattrOptions{insertDoc: true}, opts)
+	return c.writeWithXattrs(k, vp, xattrs, nil, expP, writeXattrOptions{insertDoc: true, tombstoneCas: tombstoneCas}, opts)
 }
 
 // Updates an xattr and deletes the body (making the doc a tombstone.)
@@ -500,6 +506,7 @@ type writeXattrOptions struct {
 	isDelete           bool // Allow ressurecting a tombstone
 	requireExistingDoc bool // Return KeyNotFoundError if doc doesn't already exist
 	deleteBody         bool // Delete the body along with updating tombstone
+	tombstoneCas       CAS  // If nonzero and the doc is a tombstone, it must have this CAS
 }
 
 // checkCasXattr checks the cas supplied against the current cas of the document. existingCas is the current Cas of the document (will be 0 if no document) and expectedCas is the expected value. Returns CasMismatchErr on an unsuccesful CAS check.
@@ -554,6 +561,9 @@ func (c *Collection) writeWithXattrs(
 				// couchbase server can't perform a cas check on a tombstone so we return ErrKeyExists
 				if ifCas != nil && *ifCas != 0 {
 					return nil, sgbucket.ErrKeyExists
+				}
+				if opts.tombstoneCas != 0 && opts.tombstoneCas != prevCas {
+					return nil, sgbucket.CasMismatchErr{Expected: opts.tombstoneCas, Actual: prevCas}
 				}
 				e.xattrs = nil // xattrs are cleared whenever resurrecting a tombstone
 			} else if opts.insertDoc {
